@@ -144,3 +144,27 @@ pub fn queries(xs: &[i64]) -> Vec<i64> {
     q.dedup();
     q
 }
+
+/// node times of long curves: grid 0 = uneven (gap pattern from `mult`), 1 = evenly spaced weekly, 2 = weekly
+/// with interior nodes moved off the grid (first step, last step and total span unchanged), 3 = daily nodes
+/// followed by yearly nodes, 4 = yearly nodes followed by daily nodes
+pub fn grid_times(n: usize, grid: u8, mult: usize) -> Vec<i64> {
+    match grid {
+        0 => node_times(&(0..n - 1).map(|i| ((i * mult + 1) % 3) as u8).collect::<Vec<u8>>()),
+        3 | 4 => {
+            // a dense end and a sparse end: two thirds of the gaps are one day, the others one year
+            let dense = 2 * (n - 1) / 3;
+            let gaps: Vec<u8> = (0..n - 1).map(|i| if (i < dense) == (grid == 3) { 0 } else { 2 }).collect();
+            node_times(&gaps)
+        }
+        _ => {
+            let mut v: Vec<i64> = (0..n).map(|i| t0() + 7 * DAY * i as i64).collect();
+            if grid == 2 && n >= 8 {
+                v[n / 2] += 3 * DAY;
+                v[3] -= 2 * DAY;
+                v[n - 3] += 5 * DAY;
+            }
+            v
+        }
+    }
+}
